@@ -273,6 +273,20 @@ def array_binop(op, a, b, lineno=None):
         return elementwise(lambda x, y: scalar_binop(op, B(x), B(y), lineno), a, b, "bool", lineno)
     if op in ("BitAnd", "RShift") and not is_arr(b):
         return elementwise(lambda x, y: _bit_noassert(op, x, y), a, b, "int", lineno)
+    if op == "RShift" and isinstance(b, SArr) and isinstance(conc(b.length), int) and conc(b.length) <= 8:
+        # x >> [s0, s1, ...] with a short array of literal shift amounts (broadcast): tabulate per amount
+        fb0 = b.snapshot()
+        amounts = [conc(fb0(j)) for j in range(conc(b.length))]
+        if all(isinstance(v, int) and v >= 0 for v in amounts):
+            def shift(x, y, amounts=sorted(set(amounts))):
+                cy = conc(y)
+                if isinstance(cy, int):
+                    return _bit_noassert("RShift", x, cy)
+                r = _bit_noassert("RShift", x, amounts[-1])
+                for v in amounts[:-1]:
+                    r = z3.If(I(y) == v, I(_bit_noassert("RShift", x, v)), I(r))
+                return r
+            return elementwise(shift, a, b, "int", lineno)
     if op == "Pow":
         # base ** (array of concrete length): tabulate (the exponent of each element is a literal)
         arr = b if isinstance(b, SArr) else a
@@ -303,6 +317,10 @@ def array_binop(op, a, b, lineno=None):
         r.linear_of = (a.snapshot(), b if op == "Add" else scalar_binop("Sub", 0, b))
     elif op == "Add" and isinstance(b, SArr) and not is_arr(a) and isinstance(r, SArr):
         r.linear_of = (b.snapshot(), a)
+    elif op == "Mult" and isinstance(r, SArr) and isinstance(a, SArr) and isinstance(conc(b), int) and not is_arr(b) and conc(b) > 0:
+        r.scaled_of = (a.snapshot(), conc(b))
+    elif op == "Mult" and isinstance(r, SArr) and isinstance(b, SArr) and isinstance(conc(a), int) and not is_arr(a) and conc(a) > 0:
+        r.scaled_of = (b.snapshot(), conc(a))
     return r
 
 
@@ -521,6 +539,14 @@ def exclusive_prefix(fa, n, src=None):
             use("engine lemma: prefix sum of (a // c) times c is the prefix sum of a when c divides every a(k) (pyvc/lemmas.py L8)")
             c.assume(Forall(lambda i: Implies(And(I(i) >= 0, I(i) <= I(n)), Cb(i) == cdiv * C(i)), triggers=[C], name="L8 scaling"))
             c.assume(Forall(lambda i: Implies(And(I(i) >= 0, I(i) <= I(n)), Cb(i) == cdiv * C(i)), triggers=[Cb], name="L8 scaling'"))
+    sc = getattr(src, "scaled_of", None)
+    if sc is not None:
+        # engine lemma L8 again, premise true by construction: src = c * base elementwise  =>  prefix(src)(i) = c * prefix(base)(i)
+        use("engine lemma: prefix sum of c*b is c times the prefix sum of b (pyvc/lemmas.py L8)")
+        base_fa, cst = sc
+        Cb = exclusive_prefix(base_fa, n)
+        c.assume(Forall(lambda i: Implies(And(I(i) >= 0, I(i) <= I(n)), C(i) == cst * Cb(i)), triggers=[C], name="L8 scaled prefix"))
+        c.assume(Forall(lambda i: Implies(And(I(i) >= 0, I(i) <= I(n)), C(i) == cst * Cb(i)), triggers=[Cb], name="L8 scaled prefix'"))
     lin = getattr(src, "linear_of", None)
     if lin is not None:
         # engine lemma L5 (pyvc/lemmas.py): prefix sums are linear:  g = a + c  =>  C_g(i) = C_a(i) + c*i
